@@ -2,6 +2,9 @@ package main
 
 import (
 	"fmt"
+	"go/token"
+	"go/types"
+	"net/http"
 	"os"
 	"path/filepath"
 	"sort"
@@ -23,6 +26,7 @@ func checkC15(c *Ctx) {
 	r152(c, "R15.2 error-classification")
 	r153(c)
 	r154(c, "R15.4 failed-request-leaves-nothing-behind")
+	r155(c, "R15.5 late-failure-stays-visible")
 }
 
 func r151(c *Ctx) {
@@ -330,4 +334,133 @@ func r154(c *Ctx, rule string) {
 		}
 	}
 	c.ob(rule, "no-recover-in-proxy", send.Pos(), n == 0, true, "whole internal/server scanned")
+}
+
+// mayWriteResponse: module functions that can write to the client's http.ResponseWriter (directly, through a wrapper,
+// through the next handler, or by handing the writer to an io.Writer consumer), transitively over static callees and
+// closures created in them.
+func (c *Ctx) mayWriteResponse() map[*ssa.Function]bool {
+	isRW := func(t types.Type) bool { return namedOf(t) == "net/http.ResponseWriter" }
+	strip := func(v ssa.Value) ssa.Value {
+		for {
+			switch x := v.(type) {
+			case *ssa.ChangeInterface:
+				v = x.X
+			case *ssa.MakeInterface:
+				v = x.X
+			default:
+				return v
+			}
+		}
+	}
+	prim := func(cc *ssa.CallCommon) bool {
+		if cc.IsInvoke() {
+			switch cc.Method.Name() {
+			case "WriteHeader", "ServeHTTP":
+				return true
+			case "Write", "WriteString", "ReadFrom", "Flush":
+				return isRW(cc.Value.Type())
+			}
+			return false
+		}
+		switch calleeName(cc) {
+		case "net/http.Error", "net/http.Redirect", "net/http.NotFound", "net/http.ServeContent", "net/http.ServeFile":
+			return true
+		}
+		// the writer handed on as a plain io.Writer (io.Copy, Buffer.Send, template execution, ...)
+		for _, a := range cc.Args {
+			if u := strip(a); u != a && isRW(u.Type()) && !isRW(a.Type()) {
+				return true
+			}
+		}
+		return false
+	}
+	funcs := c.proxyFuncs()
+	out := map[*ssa.Function]bool{}
+	for changed := true; changed; {
+		changed = false
+		for _, fn := range funcs {
+			if out[fn] {
+				continue
+			}
+			hit := false
+			for _, cs := range callsIn(fn) {
+				cc := cs.common()
+				if prim(cc) {
+					hit = true
+				} else if callee := cc.StaticCallee(); callee != nil && (out[callee] || (callee.Origin() != nil && out[callee.Origin()])) {
+					hit = true
+				} else if mc, ok := cc.Value.(*ssa.MakeClosure); ok && out[mc.Fn.(*ssa.Function)] {
+					hit = true
+				}
+			}
+			for _, a := range fn.AnonFuncs {
+				if out[a] {
+					hit = true
+				}
+			}
+			if hit {
+				out[fn] = true
+				changed = true
+			}
+		}
+	}
+	return out
+}
+
+// R15.5 A target that fails after its header block was relayed makes ReverseProxy panic(http.ErrAbortHandler); the
+// client sees the failure only if that panic reaches net/http with the response still incomplete. Two things in the
+// proxy's own code can hide it: code that runs DURING the unwinding (deferred) and completes the response, and a
+// framing header (Content-Length / Transfer-Encoding) computed by the proxy from what it happened to receive.
+func r155(c *Ctx, rule string) {
+	c.floor(rule, 8)
+	writes := c.mayWriteResponse()
+	n := 0
+	for _, fn := range c.proxyFuncs() {
+		for _, b := range fn.Blocks {
+			for _, in := range b.Instrs {
+				d, ok := in.(*ssa.Defer)
+				if !ok {
+					continue
+				}
+				n++
+				var callee *ssa.Function
+				if mc, isMC := d.Call.Value.(*ssa.MakeClosure); isMC {
+					callee = mc.Fn.(*ssa.Function)
+				} else {
+					callee = d.Call.StaticCallee()
+				}
+				name := calleeName(&d.Call)
+				if callee != nil {
+					name = fname(callee)
+				} else if name == "" {
+					name = "func value " + typeString(d.Call.Value.Type())
+				}
+				bad := false
+				switch {
+				case callee != nil:
+					bad = writes[callee] || (callee.Origin() != nil && writes[callee.Origin()])
+				case d.Call.IsInvoke():
+					bad = d.Call.Method.Name() == "ServeHTTP" || d.Call.Method.Name() == "WriteHeader" || d.Call.Method.Name() == "Write"
+				}
+				c.ob(rule, "defer "+name+" in "+fname(fn)+" writes no response", d.Pos(), !bad, true, "deferred code also runs while a mid-body abort (panic(http.ErrAbortHandler)) unwinds: if it can write to the client it can turn a truncated response into one that looks complete")
+			}
+		}
+	}
+	c.ob(rule, "deferred-calls-inventoried", token.NoPos, n >= 8, false, fmt.Sprintf("%d deferred calls in the module", n))
+	// the proxy computes no framing header for a response
+	for _, t := range c.requestTouches() {
+		if t.side != "response" && t.side != "own" {
+			continue
+		}
+		if !strings.HasPrefix(t.what, "header:") || t.what == "header:del" {
+			continue
+		}
+		h := http.CanonicalHeaderKey(t.hdr)
+		if t.side == "own" && h != "Content-Length" && h != "Transfer-Encoding" {
+			continue
+		}
+		okH := h != "Content-Length" && h != "Transfer-Encoding" && h != "Trailer" && h != ""
+		c.ob(rule, fname(outer(t.fn))+" sets response header "+t.hdr, t.in.Pos(), okH, true, "Content-Length / Transfer-Encoding of a relayed response must stay the target's: a length derived from the bytes received so far makes a cut-off body self-consistent")
+	}
 }
